@@ -30,7 +30,7 @@ RULE = ('a case = (static attributes with quoting kinds, statement entries, valu
         'statics and 4 entries incl. up to 2 dictionary entries; non-trivial iff a name is targeted by >=1 dynamic source or is '
         'boolean; distinct by (static quoting vector, overlap pattern, value classes, configuration). Not generated (statement '
         'silent or ambiguous): default for an attribute whose static text contains ${...}; a dictionary key equal to a name '
-        'that is both static and targeted by a named entry; dictionary keys differing only in case from another name; quote style of a dynamic value replacing an '
+        'that is both static and targeted by a named entry written AFTER the dictionary; dictionary keys differing only in case from another name; quote style of a dynamic value replacing an '
         'unquoted or valueless static (compared quote-agnostically).')
 ASSUMPTIONS = ['a dictionary-supplied value for a static name may appear at the static or at the dictionary position '
                '(position of dictionary-overridden names is compared as unordered)']
@@ -269,12 +269,22 @@ def one_case(ctx, statics, entries, cfg, Bs, sample=False):
                 src, wrap, type(e).__name__, str(e).split('\n')[0]), {'kind': 'compile', 'src': src, 'cfg': cfg})
     for B in Bs:
         exp = model(statics, entries, cfg, B)
+        rb = real_bindings(B)
+        before = {k: dict(v) for k, v in rb.items() if isinstance(v, dict)}
         try:
-            o = t(**real_bindings(B))
+            o = t(**rb)
             rt = read_tag(o)
         except Exception as e:
             o = 'RAISED %s: %s' % (type(e).__name__, str(e).split('\n')[0][:100])
             rt = None
+        # the attribute dictionaries are the caller's objects: they may serve other elements, loops and renderings
+        changed = [k for k in before if rb[k] != before[k]]
+        if before:
+            ctx.mon('attribute-dictionaries-checked-after-use')
+        if changed:
+            ctx.violation('attribute-dictionary-of-the-caller-modified', 'template %r: after rendering, the dictionary %s is %r, was %r'
+                          % (src, changed[0], rb[changed[0]], before[changed[0]]), {'kind': 'attrs', 'src': src, 'cfg': cfg, 'B': repr(B)})
+            return
         ctx.mon('start-tags-compared')
         vals = tuple(sorted((k, v if isinstance(v, str) else type(v).__name__) for k, v in B.items() if k != 'iv'))
         nontrivial = bool(entries) or any(n in BOOL for n, k in statics)
@@ -390,10 +400,14 @@ def layer_random(ctx, n):
         # exclusions (see RULE)
         all_names = {n for n, k in statics} | {n for n, v in entries if n}
         bad = False
-        for n, var in entries:
+        for pos, (n, var) in enumerate(entries):
             if n is None:
                 for key in DICTS[var]:
-                    if key.lower() in named_static:
+                    # a dictionary key that is also a static name targeted by a named entry: judged only when the named entry
+                    # comes first ('later sources override earlier ones' then names the dictionary; the other order is left out)
+                    if key.lower() in named_static and not any(e[0] and e[0].lower() == key.lower() for e in entries[:pos]):
+                        bad = True
+                    if key.lower() in named_static and any(e[0] and e[0].lower() == key.lower() for e in entries[pos:]):
                         bad = True
                     if any(key.lower() == x.lower() and key != x for x in all_names):
                         bad = True
